@@ -330,6 +330,7 @@ class Pair:
         self.arrived = threading.Semaphore(0)
         self.hung = False
         self._orig_N = rd._nr_of_retries
+        self.clock = base.StatsClock(0.0001).install()
         self._undo = _install(self.dev)
         self.sims = {}
         try:
@@ -368,6 +369,7 @@ class Pair:
             self.arrived.release()
 
     def _end(self):
+        self.clock.remove()
         self._undo()
         self.rd._nr_of_retries = self._orig_N
 
